@@ -519,6 +519,23 @@ func (m *Metadata) Validate(data map[string]any, currentVersion ...string) Valid
 						}
 					}
 				}
+			case "requiresChild":
+				// the object must name at least one child that isn't null
+				if mapVal, ok := v.(map[string]any); ok {
+					found := false
+					for _, vv := range mapVal {
+						if vv != nil {
+							found = true
+							break
+						}
+					}
+					if !found {
+						results = append(results, ValidationResult{
+							Message:  fmt.Sprintf("field %s must not be empty; remove it or specify one of its children", k),
+							Severity: Error,
+						})
+					}
+				}
 			case "noReservedHeaders":
 				if mapVal, ok := v.(map[string]any); ok {
 					for kk := range mapVal {
